@@ -155,12 +155,13 @@ def _check(prop, tier, seed, replay, work, t0):
     cov = {"states": states, "transitions": trans, "traces_validated_against_impl": nscen, "samples": vlib.trace_samples(trace), "exhaustive": False,
            "executed_commands": nexec, "scenarios_with_migrations": nmig, "scenarios_by_mode": modes, "d_layer_runs": druns,
            "trace_events_checked": tr["distinct"],
-           "explanation": "streams of <= %d RPUSH commands over 2-4 hash-tagged keys (every 4th scenario: one hot key, 10-17 commands, single-command batches) "
+           "explanation": "streams of <= %d RPUSH commands (and, where two keys share a tag, three-key DEL commands) over 2-4 hash-tagged keys (every 4th scenario: one hot key, 10-17 commands, single-command batches) "
                           "replayed by the real RedisOutput into a three-node cluster fake in blocking, pipelined, transactional and transactional-pipelined mode; "
                           "0-2 slot migrations per scenario (instant hand-over = MOVED, or begin / move keys / finish = ASK window) fired at request counts; "
                           "after every reported error the replay restarts from the stored position (<= 4 runs)" % cmds_}
     vlib.write_evidence(prop, tier, seed, "model_checking", cov,
                         ["bidirectional units under migration (the txn batcher's whole-transaction redirect) - C14/C18 run on a static layout",
-                         "multi-key commands, node failures / connection loss of single nodes", "TRYAGAIN answers"],
+                         "a node that fails for good (the failing node of the fail-fast scenarios refuses one request and recovers)",
+                         "commands other than RPUSH and the three-key DEL of a tag pair (TRYAGAIN while one of the keys has moved)"],
                         time.time() - t0, len(violations))
     vlib.conclude(prop, violations, known)
